@@ -129,6 +129,11 @@ class C08(Check):
         vals = self.values(case)
         consts = {}
         with sim_kernel.installed() as kernel:
+            if subs and case["valseed"] % 3 == 0:
+                # an earlier program of this class used the same subprogram OBJECTS in another arrangement (one more in front, the
+                # others in reverse order): nothing of that layout may stick to them
+                Main(ProgType.XDP, "GPL", subprograms=[type(subs[-1])()] + list(reversed(subs)))
+            n_maps0 = len(kernel.maps)
             e = Main(ProgType.XDP, "GPL", subprograms=subs)
             objs = {"main": e}
             objs.update({f"s{i}": s for i, s in enumerate(subs)})
@@ -147,7 +152,7 @@ class C08(Check):
                 setattr(objs[o], n, c)
             e.r0 = 2
             e.exit()
-            fds = {fd: k for k, fd in enumerate(kernel.maps)}
+            fds = {fd: k for k, fd in enumerate(list(kernel.maps)[n_maps0:])}      # the maps of THIS program, in creation order
             instrs = []
             for ins in e.opcodes:
                 op, dst, src, off, imm = ins
